@@ -30,6 +30,15 @@ def cont_world(self):
 WORLD_CASES = [dict(name='grid', mode='int', when=grid_world), dict(name='continuous', mode='real', when=cont_world)]
 
 
+def cont_world_any(self):
+    """Continuous worlds with any non-negative extents (also fractional ones below 1): placement and leaving (C04)
+    are not restricted to the extents C08 quantifies over."""
+    return self._index_offset == 0 and self.width >= 0 and self.height >= 0 and self.depth >= 0
+
+
+PLACE_CASES = [dict(name='grid', mode='int', when=grid_world), dict(name='continuous', mode='real', when=cont_world_any)]
+
+
 def pos_of(a):
     return a.components[PositionComponent]
 
@@ -191,7 +200,7 @@ contract('Environments.SpaceWorld.add_agent',
          raises={'Exception': dict(when=placement_oob), 'DuplicateAgentError': dict(when=placement_dup)},
          modifies=['self.agents', 'self.model.systems.component_pools', 'store:list[ref:Component]',
                    'new:list[ref:Component]', 'agent.components', 'new:obj:PositionComponent'],
-         modes=['int', 'real'], cases=WORLD_CASES, props=['C03', 'C04', 'C08'])
+         modes=['int', 'real'], cases=PLACE_CASES, props=['C03', 'C04', 'C08'])
 
 
 def leaver_positioned(self, a_id):
@@ -226,7 +235,7 @@ contract('Environments.SpaceWorld.remove_agent',
          raises={'AgentNotFoundError': dict(when=env_remove_unknown)},
          modifies=['self.agents', 'self.model.systems.component_pools', 'store:list[ref:Component]',
                    'self.agents[a_id].components'],
-         modes=['int', 'real'], cases=WORLD_CASES, props=['C03', 'C04', 'C08'])
+         modes=['int', 'real'], cases=PLACE_CASES, props=['C03', 'C04', 'C08'])
 
 
 # ------------------------------------------------------------------------------------------------ C12 positional query
